@@ -803,7 +803,8 @@ _MAIN_BLOCKS = {}
 
 def _main_block(path):
     if path not in _MAIN_BLOCKS:
-        src = open(path).read()
+        with open(path) as f:
+            src = f.read()
         tree = ast.parse(src)
         for node in tree.body:
             if isinstance(node, ast.If) and "__main__" in ast.unparse(node.test):
@@ -865,6 +866,9 @@ def start_process(child):
     def entry():
         code = 1
         try:
+            boot = RT.run.model.get("boot", 0.02)
+            if boot:
+                s.sleep(boot)       # exec + interpreter start-up take time
             boot_modules(child)
             if "-m" in argv:
                 i = argv.index("-m")
